@@ -98,19 +98,21 @@ func ruleBlockSync(c *Ctx) {
 		c.Check(okOrder, fk+" :: block stored before it is executed", w.ipos(ap), "SaveBlock precedes ApplyBlock", "ApplyBlock can run without the block having been stored")
 		// failure edge: both providers are dropped and their requests redone (v0)
 		if relPkg(f) == "blockchain/v0" {
-			redo := w.callsTo(f, "blockchain/v0#BlockPool.RedoRequest")
-			stops := w.callsTo(f, "p2p#Switch.StopPeerForError")
+			redoD := w.deepCallsTo(f, 2, "blockchain/v0#BlockPool.RedoRequest")
+			stopsD := w.deepCallsTo(f, 2, "p2p#Switch.StopPeerForError")
+			var redo []ssa.CallInstruction
 			nRedo := 0
-			for _, r := range redo {
-				a := w.expr(callArgs(r)[0])
+			for _, r := range redoD {
+				a := r.arg(0)
 				if a == first+".Header.Height" || a == second+".Header.Height" {
 					nRedo++
 				}
+				redo = append(redo, r.site)
 			}
 			c.Check(nRedo == 2, fk+" :: on failure both requests are redone", w.pos(f.Pos()), "RedoRequest(first.Height) and RedoRequest(second.Height)", fmt.Sprintf("found %d matching RedoRequest calls", nRedo))
 			nStop := 0
-			for _, s := range stops {
-				if strings.Contains(w.expr(callArgs(s)[0]), "RedoRequest(") {
+			for _, s := range stopsD {
+				if strings.Contains(s.arg(0), "RedoRequest(") {
 					nStop++
 				}
 			}
